@@ -408,7 +408,21 @@ pub fn render(items: &[Item]) -> Rendered {
                     s.push(')');
                     w.ln(&s);
                 }
-                if !t.indirect.is_empty() {
+                if !t.indirect.is_empty() && (t.indirect.len() + t.params.len()) % 2 == 0 {
+                    // @pytest.mark.parametrize("a, b", [(1, 2)], indirect=True): the names live inside ONE string
+                    let vals: Vec<&str> = t.indirect.iter().map(|_| "1").collect();
+                    let mut s = format!("{}@pytest.mark.parametrize(\"", ind);
+                    for (i, n) in t.indirect.iter().enumerate() {
+                        if i > 0 {
+                            s.push_str(", ");
+                        }
+                        let st = u16len(&s);
+                        s.push_str(n);
+                        out.toks.push(Tok { kind: TokKind::Indirect, name: n.clone(), line: w.line, start: st, end: u16len(&s), item: idx, in_fixture: None });
+                    }
+                    s.push_str(&format!("\", [({},)], indirect=True)", vals.join(", ")));
+                    w.ln(&s);
+                } else if !t.indirect.is_empty() {
                     // @pytest.mark.parametrize("a,b", [(1, 2)], indirect=["a", "b"])
                     let argnames = t.indirect.join(",");
                     let vals: Vec<&str> = t.indirect.iter().map(|_| "1").collect();
@@ -556,7 +570,7 @@ pub fn gen_items(rng: &mut Rng, names: &[String], is_test_file: bool, o: &GenOpt
             name: if rng.chance(o.unicode_test_names_per_mille) { format!("test_{}{}", rng.pick(&["caf\u{e9}", "\u{65e5}\u{672c}", "\u{43f}\u{440}\u{43e}\u{432}\u{435}\u{440}\u{43a}\u{430}"]), k) } else { format!("test_{}", k) },
             params: subset(rng, names, 3),
             usefixtures: if o.marks && rng.chance(200) { subset(rng, names, 2) } else { vec![] },
-            indirect: if o.marks && rng.chance(100) { subset(rng, names, 1) } else { vec![] },
+            indirect: if o.marks && rng.chance(100) { subset(rng, names, 2) } else { vec![] },
             in_class: o.in_class && rng.chance(150),
             body_uses: if o.body_uses && rng.chance(200) { subset(rng, names, 2) } else { vec![] },
             multiline: rng.chance(o.multiline_per_mille),
